@@ -156,7 +156,9 @@ func buildDriver(e *Env, specs []PkgSpec, race bool) (string, string, []PkgSpec,
 			if raw == nil && specs[i].Doc != nil {
 				raw = specs[i].Doc.JSON()
 			}
-			st.RefusedSpecs = append(st.RefusedSpecs, droppedSpec{specs[i].Name, r.why, raw, specs[i].Cfg})
+			if specs[i].Meta["may_be_refused"] != true {
+				st.RefusedSpecs = append(st.RefusedSpecs, droppedSpec{specs[i].Name, r.why, raw, specs[i].Cfg})
+			}
 		default:
 			st.Dropped++
 			st.DroppedWhy[r.why]++
